@@ -169,8 +169,9 @@ fn lib_view(bytes: &[u8], pw: &str) -> String {
     format!("ok k={} p={} t={} a={} n={} s={} x={} d={}", key, perm, t, a, nz(ns), nz(ss), x, nz(ds))
 }
 
-fn wrong_pw(user: &str, owner: &str) -> String {
-    format!("#{}{}#", user, owner)
+/// a password that is neither (generated passwords never contain 0x01)
+fn wrong_pw(_user: &str, _owner: &str) -> String {
+    "\u{1}#wrong#\u{1}".to_string()
 }
 
 fn pw(h: &str) -> Option<String> {
@@ -749,7 +750,34 @@ fn gen(rng: &mut Rng, tier: Tier) -> Vec<Case> {
     }
     // (b) the independent encoder writes
     let schemes = ["rc4_40", "rc4_128", "rc4_128v4", "aes_128", "aes_256", "aes_256r5"];
-    let flagsets: &[&str] = &["-", "l", "x", "mx", "o", "ol", "d", "omx", "dl"];
+    // flag sets never combine two of the known reader defects (o / mx / d), so that each
+    // finding keeps a narrow matcher
+    let flagsets: &[&str] = &["-", "l", "x", "xl", "mx", "o", "ol", "ox", "d", "dl"];
+    let mk = |rng: &mut Rng, sc: &str, fl: &str, user: String, owner: String, tag: &str| {
+        let npages = 1 + rng.below(2) as usize;
+        let texts: Vec<String> = (0..npages).map(|_| hx(&rand_text(rng, 40))).collect();
+        let annot = match rng.below(3) {
+            0 => "-".to_string(),
+            1 => format!("Contents:{}", hx(&rand_text(rng, 20))),
+            _ => format!("Contents:{},T:{}", hx(&rand_text(rng, 20)), hx(&rand_text(rng, 10))),
+        };
+        Case::new(
+            format!(
+                "ind {} {} {} {} {} {} {} {} {} {}",
+                sc,
+                fl,
+                hx(&user),
+                hx(&owner),
+                rand_perm(rng),
+                hx(&rand_text(rng, 30)),
+                hx(&rand_text(rng, 10)),
+                texts.join(","),
+                annot,
+                rng.next() % 1_000_000_007
+            ),
+            format!("ind {} flags{} {} pages{} nt", sc, fl, tag, npages),
+        )
+    };
     let rounds = if thorough { 6 } else { 1 };
     for round in 0..rounds {
         for (si, sc) in schemes.iter().enumerate() {
@@ -758,40 +786,40 @@ fn gen(rng: &mut Rng, tier: Tier) -> Vec<Case> {
                 if fl.contains('m') && (*sc == "rc4_40" || *sc == "rc4_128") {
                     continue;
                 }
-                // quick tier: every scheme meets every flag set once; R6 is the slow one
-                // (Algorithm 2.B in the Lean reference), keep its passwords short there
-                let uc = ((si + fi + round) % 8) as u64;
-                let oc = ((si + 3 * fi + round + 1) % 8) as u64;
-                let slow = *sc == "aes_256";
-                let user = rand_pw(rng, if slow && !thorough { uc % 3 } else { uc });
-                let mut owner = rand_pw(rng, if slow && !thorough { oc % 3 } else { oc });
+                let r56 = sc.starts_with("aes_256");
+                // password classes: 0 empty, 1 ASCII, 2 non-ASCII, 3 33-60 bytes, 4 100-127,
+                // 5 > 127 (R2-R4 only here: R5/R6 > 127 bytes is finding F5, generated below),
+                // 6 exactly 32, 7 exactly 127.  R6 costs the Lean reference ~0.1 s per hash:
+                // long passwords for it only in the thorough tier.
+                let pick = |k: usize| -> u64 {
+                    let c = (k % 8) as u64;
+                    if r56 && c == 5 {
+                        4
+                    } else if *sc == "aes_256" && !thorough && c >= 3 {
+                        c % 3
+                    } else {
+                        c
+                    }
+                };
+                let uc = pick(si + fi + round);
+                let oc = pick(si + 3 * fi + round + 1);
+                let user = rand_pw(rng, uc);
+                let mut owner = rand_pw(rng, oc);
                 if owner == user {
                     owner.push('o');
                 }
-                let npages = 1 + rng.below(2) as usize;
-                let texts: Vec<String> = (0..npages).map(|_| hx(&rand_text(rng, 40))).collect();
-                let annot = match rng.below(3) {
-                    0 => "-".to_string(),
-                    1 => format!("Contents:{}", hx(&rand_text(rng, 20))),
-                    _ => format!("Contents:{},T:{}", hx(&rand_text(rng, 20)), hx(&rand_text(rng, 10))),
-                };
-                out.push(Case::new(
-                    format!(
-                        "ind {} {} {} {} {} {} {} {} {} {}",
-                        sc,
-                        fl,
-                        hx(&user),
-                        hx(&owner),
-                        rand_perm(rng),
-                        hx(&rand_text(rng, 30)),
-                        hx(&rand_text(rng, 10)),
-                        texts.join(","),
-                        annot,
-                        rng.next() % 1_000_000_007
-                    ),
-                    format!("ind {} flags{} upw-class{} opw-class{} pages{} nt", sc, fl, uc, oc, npages),
-                ));
+                out.push(mk(rng, sc, fl, user, owner, &format!("upw-class{} opw-class{}", uc, oc)));
             }
+        }
+    }
+    // R5 / R6 with passwords longer than 127 bytes (Algorithm 2.A (a): truncated to 127 bytes)
+    for (i, sc) in ["aes_256r5", "aes_256"].iter().enumerate() {
+        let n = if thorough { 3 } else { 1 };
+        for j in 0..n {
+            let (uc, oc) = if (i + j) % 2 == 0 { (5, 1) } else { (1, 5) };
+            let user = rand_pw(rng, uc);
+            let owner = rand_pw(rng, oc);
+            out.push(mk(rng, sc, if j % 2 == 0 { "-" } else { "l" }, user, owner, &format!("upw-class{} opw-class{} long", uc, oc)));
         }
     }
     out
